@@ -28,6 +28,45 @@ claim("C01", "stmt_space",
       "complete value range for 14 representative rows. Exhaustive within that product, nothing sampled.",
       "trusts ref_data/mc6809_opcodes.tsv (datasheet transcription) and mc/ref/m6809.py (decoder, self-tested); DP=0 only", "DESIGN.md 6 C01")
 
+claim("C02", "prog_bfs",
+      "breadth-first enumeration of statement sequences (depth <= 3/4) over a 83-template alphabet with label holes, on the real assembler; "
+      "layout arithmetic oracle over listing, symbol table and image",
+      "All statement sequences up to the stated depth, every label binding (defined/undefined/duplicate): listing address advance = bytes "
+      "emitted (decoder / directive spec), hex column = image slice, image loads at origin as listed, symbol values, duplicate/undefined rejection.",
+      "trusts the MC6809 decoder for instruction lengths; origin None read as 0", "DESIGN.md 6 C02")
+claim("C03", "prog_bfs",
+      "exhaustive distance sweeps and enumeration of 2-3 mutually dependent label,PCR statements on the real assembler; decoded target "
+      "compared with the symbol table",
+      "Every branch and indexed-capable mnemonic, forward/backward/self, every filler length in the stated ranges (0..140, +-10 around 32767), "
+      "label+-k targets, several origins, bare n,PCR over the boundary value set, and all pairs/triples of PCR statements with every gap in "
+      "112..132: the decoded displacement must reach symbol-table(label)+k; out-of-range short branches must be rejected.",
+      "trusts the decoder; INTERNAL/HANG outcomes are reported by C13", "DESIGN.md 6 C03")
+claim("C04", "stmt_space",
+      "product enumeration of operand position x term x operator x term (literal spellings, EQU before/after use, labels before/after use) "
+      "on the real assembler against integer arithmetic",
+      "14 operand positions x single terms and all ordered term pairs x 4 operators: the decoded operand field must equal the arithmetic "
+      "value modulo the field width; /0 must be diagnosed; out-of-range results rejected or reduced mod 65536.",
+      "reference arithmetic is Python integer arithmetic with truncating division; tolerances listed in the evidence file", "DESIGN.md 6 C04")
+claim("C05", "stmt_space",
+      "product enumeration of FCB/FDB lists, FCC strings x delimiters, RMB counts and no-byte directives on the real assembler against the "
+      "directive specification",
+      "All value lists of length 1-3 over 18 element kinds and structured lists up to length 64, all short strings over a hostile alphabet for "
+      "every delimiter, all printable characters, runs up to 255, RMB n (every n in thorough): emitted bytes = specification.", 
+      "symbols in data lists are a recorded finding (KF-C05-1)", "DESIGN.md 6 C05")
+claim("C12", "stmt_space",
+      "exhaustive enumeration of operand text (all token strings up to length 3-5 over a 17-token alphabet, plus every form with "
+      "out-of-range values / wrong registers / absent modes) on the real assembler, decoded by the independent decoder",
+      "Whatever the assembler accepts must decode as exactly one instruction of that mnemonic whose length equals the space the listing "
+      "reserves; texts that the documented grammar classifies as value-out-of-range, wrong-register or absent-mode must be rejected.",
+      "trusts the decoder and the operand grammar of DESIGN.md appendix D (mc/ref/m6809.py parse_operand)", "DESIGN.md 6 C12")
+claim("C13", "prog_bfs",
+      "exhaustive enumeration of programs (all programs of the other walks, single-mutation closure of a corpus, all lines of <= 3-4 fields "
+      "over a line alphabet, include graphs) under a watchdog; outcome classification by exception type and raising call site",
+      "Every program must end with image+listing+symbols or a ParseError/TranslationError that names a statement; any other exception or a "
+      "confirmed timeout is a violation identified by call site; rejected programs run through the command line must exit non-zero and "
+      "create no file.",
+      "hang = no result within 3 s and again within 12 s alone; in-process assembler.main stands for the command", "DESIGN.md 6 C13")
+
 
 def build():
     checks = []
@@ -61,6 +100,8 @@ def build():
         "engines": [
             {"name": "stmt_space", "path": "mc/checks/c01.py", "serves_properties": ["C01", "C04", "C05", "C12"],
              "kind_free_text": "product enumeration of single statements through Program.process"},
+            {"name": "prog_bfs", "path": "mc/checks/c02.py", "serves_properties": ["C02", "C03", "C13", "C18", "C19"],
+             "kind_free_text": "breadth-first enumeration of statement sequences / program families through Program.process"},
         ],
         "checks": checks,
         "not_applicable": na,
